@@ -53,12 +53,16 @@ def reachMatrix (n : Nat) (adj : Nat → List Nat) : Option (List (List Bool)) :
 
 def reachB (rm : List (List Bool)) (u v : Nat) : Bool := (rm.getD u []).getD v false
 
-/-- executable `IsLabelling` -/
-def isLabellingB (n : Nat) (adj : Nat → List Nat) (strong : Bool) (labels : List Nat) : Option Bool := do
-  let rm ← reachMatrix n (if strong then adj else weakAdj n adj)
+/-- equal labels exactly for mutually reachable nodes of `g` -/
+def isLabellingOn (n : Nat) (g : Nat → List Nat) (labels : List Nat) : Option Bool := do
+  let rm ← reachMatrix n g
   pure (labels.length == n &&
     (List.range n).all fun u => (List.range n).all fun v =>
       (labels.getD u 0 == labels.getD v 0) == (reachB rm u v && reachB rm v u))
+
+/-- executable `IsLabelling` (mutual reachability in the symmetrised graph is reachability) -/
+def isLabellingB (n : Nat) (adj : Nat → List Nat) (strong : Bool) (labels : List Nat) : Option Bool :=
+  isLabellingOn n (if strong then adj else weakAdj n adj) labels
 
 /-! ### 2-colourability -/
 
